@@ -102,6 +102,18 @@ CHECKS.update({
         design='DESIGN.md §4 C16', engine='enumvals'),
 })
 
+CHECKS.update({
+    'C14': dict(
+        technique='explicit-state BFS over cache operation + damage histories merged on directory bytes, dictionary model in lock step; exhaustive byte-prefix truncation of every stored file',
+        text='Per cache type (JsonCache, JsonCache(allow_nones=False), NumpyArrayCache, DataFrameCache): breadth-first exploration of all histories over {get, get_or_compute, forced, raising '
+             'computer} x {instance, second instance on the same directory, sub-cache} x 2 keys x 2 values interleaved with {delete, empty, garbage, other-shape, other-key} damage, states '
+             'merged on the bytes of the cache directory (the merge is cross-checked against the model: same bytes must mean same model), until the reachable state space closes or the '
+             'depth bound is hit; every proper byte prefix of every stored file of every domain value must read as absent and be repaired by exactly one recomputation; a unicode key '
+             'menu and all domain values round-trip type-strictly across instances and sub-caches.',
+        note='Dictionary model in tcv/checks/c14.py; a pickle in place of an .npy file is not damage (np.load(allow_pickle) reads it); values the serializer rejects are outside the statement.',
+        design='DESIGN.md §4 C14', engine='c14'),
+})
+
 PENDING_REASON = 'check not built yet in this round (planned per DESIGN.md §4; technique applies)'
 
 
